@@ -70,7 +70,7 @@ def gen_cases(tier, rng):
 
 
 
-def target_leg(run, rng, har, drv, tier, stats):
+def target_leg(run, rng, har, drv, tier, stats, prop=None):
     """every target string on the command line: the invocation proceeds or is refused with a diagnostic, never panics;
     the model's target resolution (C12_target_safe is about it) agrees"""
     import sched as S
@@ -81,7 +81,13 @@ def target_leg(run, rng, har, drv, tier, stats):
             targets.append(b"".join(t))
     targets += [b"out/gen", b"out/gen/", b"./out//gen", b"out/x/../gen", b"\xc3\xa9", "日本/é".encode(), b"a\0b", b"a\nb", b"$out", b"a" * 5000,
                 b"/".join([b"d%d" % i for i in range(59)]), b"/".join([b"d%d" % i for i in range(70)]), b"../" * 30 + b"a", b"a/" * 40 + b"../" * 40 + b"a"]
-    man = "rule r\n  command = cmd x $out\nbuild out/gen: r in\nbuild a: r in\nbuild a/b: r in\ndefault a\n"
+    # nodes whose names end in a separator are nodes of their own (`a/` is not `a`): phony, so that nothing has to write them
+    man = "rule r\n  command = cmd x $out\nbuild out/gen: r in\nbuild a: r in\nbuild a/b: r in\nbuild a/: phony in\nbuild out/gen/: phony in\ndefault a\n"
+    declared = [b"out/gen", b"a", b"a/b", b"a/", b"out/gen/"]
+    import c13 as P
+    def key(t):
+        return (P.py_sem(t), P.py_dirlike(t))
+    dkeys = {key(d): i for i, d in enumerate(declared)}
     scens, metas = [], []
     for t in targets:
         names = [t] if rng.random() < 0.7 else rng.choice([[b"a", t], [t, b"a"], [t, t]])
@@ -107,9 +113,28 @@ def target_leg(run, rng, har, drv, tier, stats):
             run.report_failure(cls, "command-line targets %r: no diagnostic, panic %s" % ([n[:40] for n in names], msg[:160]), where)
             continue
         items.append((sc, inv, names))
+        # independent of the model: a name that denotes a declared node (a trailing separator being significant) selects that
+        # node's step; a name that denotes none is refused
+        # (names written with `/` only: canonicalisation keeps the separator characters it is given, so `a\` is not `a/`)
+        plain = [t for t in names if t and len(P.py_comps(t)) <= 60 and b"\0" not in t and b"\n" not in t and b"\\" not in t
+                 and any(c not in (b".", b"..") for c in P.py_comps(t))]
+        if len(plain) == len(names):
+            wanted = {int(e.split("_")[1]) for e in inv.trace if e.startswith("set_") and e.split("_")[2] == "Unknown"}
+            hits = [dkeys.get(key(t)) for t in names]
+            msg = unhexs(inv.result[4:]).decode("utf-8", "replace") if kind == "err" else ""
+            if all(h is not None for h in hits):
+                if kind == "err" and "unknown path" in msg:
+                    run.report_failure(None, "command-line target %r denotes the declared node %r but is refused: %s"
+                                       % (names, [declared[h] for h in hits], msg[:120]), where)
+                elif kind in ("ok", "fail") and not set(hits) <= wanted:
+                    run.report_failure(None, "command-line targets %r denote the nodes %r; the steps wanted are %r"
+                                       % (names, [declared[h] for h in hits], sorted(wanted)), where)
+            elif kind != "err":
+                run.report_failure(None, "command-line targets %r: %r denotes no node of the manifest, yet the invocation went ahead (%s)"
+                                   % (names, [t for t, h in zip(names, hits) if h is None], inv.result[:40]), where)
     sreps = S.replay_invocations(drv, [(inv, 1, None, False, [n.decode("utf-8", "surrogateescape") for n in names]) for _, inv, names in items])
     for (sc, inv, names), srep in zip(items, sreps):
-        S.check_acceptance(run, PROP, sc, 0, inv, None, srep)
+        S.check_acceptance(run, prop or PROP, sc, 0, inv, None, srep)
     stats["target_strings"] = len(targets)
     n2, out_ = build_n2_binary()
     if n2 is None:
@@ -164,6 +189,19 @@ def main(tier, seed, replay=None):
            (b"subninja sub/rules.ninja\n", {b"sub/rules.ninja": b"include build.ninja\n"}),
            (b"include a.ninja\ninclude a.ninja\n", {b"a.ninja": b"include b.ninja\n", b"b.ninja": b"v = 1\n"}),          # a diamond, not a cycle
            (b"include a.ninja\n", {b"a.ninja": b"include ./b.ninja\n", b"b.ninja": b"include x/../a.ninja\n"})]
+    # bindings that refer to themselves or to each other, at rule level, at build level and across the two: every one loads
+    # (a reference that nothing binds at that point expands to nothing); none may recurse
+    R = b"rule r\n"
+    for body in [b"  command = a $command\nbuild o: r\n",
+                 b"  command = a $description\n  description = b $command\nbuild o: r\n",
+                 b"  command = a $extra\nbuild o: r\n  extra = b $command\n",
+                 b"  command = a $rspfile\n  rspfile = $out.rsp $rspfile_content\n  rspfile_content = $command\nbuild o: r i\n",
+                 b"  command = c $depfile $pool\n  depfile = $out.d $depfile\n  pool = $pool\nbuild o: r\n  pool = $pool\n",
+                 b"  command = c $x\nbuild o: r\n  x = $y\n  y = $x\n",
+                 b"  command = ${command}${command}\n  description = ${description}\nbuild o | o2: r i | j || k\n  command = $command\n",
+                 b"  command = $in $out $in_newline\nbuild $out: r $in\n  in = $out\n  out = $in\n"]:
+        cyc.append((R + body, {}))
+    cyc.append((b"x = $x\ny = $z\nz = $y\n" + R + b"  command = $x$y$z\nbuild o$x: r\n", {}))
     for text, fs in cyc:
         cases.append(text)
         h_lines.append("%s %s %s" % (hexs(b"build.ninja"), hexs(text), " ".join("%s %s" % (hexs(k), hexs(v)) for k, v in fs.items())))
